@@ -242,6 +242,21 @@ class C10(scen.WorldProp):
             if len(mine) < 3 * nw:
                 return (f"after Stop Touch and a new Look To the band rang on, but Wheatley struck only {len(mine)} times "
                         f"in {sc['end'] - req['again']:.1f} s (its {nw} bells, rows of {N})")
+        # no pause in mid-touch: between two strikes of one touch (no Look To in between) there is never a silence
+        # of seconds - every strike follows within a bounded time of its scheduled moment and of the humans it
+        # waited for (who lag by a second at most here), whatever arrived meanwhile (a bigger tower, say)
+        strikes = [scen.b2f(t) for (t, _, _) in reply.get("strikes", [])]
+        look_tos = [ev[0] for ev in sc["events"] if isinstance(ev[2], dict) and ev[2].get("call") == LOOK_TO]
+        cur, shrunk = sc["tower_size"], False
+        for ev in sc["events"]:
+            if isinstance(ev[2], dict) and ev[2].get("m") == "size_change":
+                shrunk = shrunk or ev[2]["size"] < cur      # (a smaller tower leaves holes in the line: pauses by design)
+                cur = ev[2]["size"]
+        if (not req["silent"] or sc["rhythm"]["kind"] == "regression") and not shrunk:
+            for a, b in zip(strikes, strikes[1:]):
+                if b - a > 2.5 and not any(t <= b <= t + 4.5 for t in look_tos):   # (a touch opens 3 s after its Look To)
+                    return (f"a silence of {b - a:.2f} s in mid-touch (from {a - req['t0']:.2f} s after the first Look To), "
+                            f"no Look To in between: Wheatley's next strike did not follow its scheduled moment")
         # keep-going with silent humans: Wheatley keeps the configured pace (never pauses for anyone)
         if req["silent"] and sc["rhythm"]["kind"] == "regression" and req["faults"] == 0 \
                 and not sc["bot"]["stop_at_rounds"] and sc["bot"]["gen"]["type"] != "comp":
